@@ -137,6 +137,13 @@ def run(tier):
         jobs.append(("race-1e6", hzr, 125000, plans[:3]))
     else:
         jobs.append(("plain-1e6", hz, 125000, plans[:2]))
+    # storms at 2^21..2^23 bits (where an implementation may start to split one call over goroutines): the linear-time tests
+    big_tests = [1, 2, 3, 4, 5, 6, 7, 8, 9, 10, 11, 12, 14]
+    big_plans = []
+    for p_ in plans[:17]:
+        if p_["id"] + 1 in big_tests:
+            big_plans.append(dict(p_, goroutines=16 if thorough else 6, tasks=p_["tasks"][: (16 if thorough else 6)], rounds=2 if thorough else 1))
+    jobs.append(("plain-4M", hz, 524289, big_plans))
     # first-use races (lazily initialised package state): one fresh process per storm plan, concurrent phase first
     for p_ in plans[:17]:
         jobs.append(("first-%d" % p_["id"], hzr if p_["id"] % 2 == 0 else hz, 2500, [p_]))
